@@ -43,8 +43,12 @@ class Module:
             open(fn, "w").write(y)
             args += ["-i", fn]
         out = os.path.join(d, "gen_stub.go" if "--stub" in flags else "gen.go")
+        # a (longer) previous generation is already there: the tool must replace it
+        open(out, "w").write("// previous generation of this file\n" * 4000)
         args += ["-o", out] + list(flags)
         rc, so, se = core.cli(args, cwd=d, env=env)
+        if rc != 0 and os.path.exists(out):
+            os.remove(out)      # a rejected configuration leaves the placeholder alone (C10's business); drop it from the module
         return rc, so + se, out
 
     def go(self, args, timeout=600, env=None):
